@@ -242,7 +242,8 @@ pub open spec fn link_rel(pre: S, post: S, p: GcPtr) -> bool {
 
 // ==================================================================================================
 // tracing a whole value / the root: summary relation of any number of trace / trace_weak calls
-pub open spec fn targets(es: Seq<Edge>, q: GcPtr) -> bool { exists|k: int| 0 <= k < es.len() && #[trigger] es[k].to == q }
+pub open spec fn targets(es: Seq<Edge>, q: GcPtr) -> bool { exists|k: int| 0 <= k < es.len() && (#[trigger] es[k]).to == q }
+pub open spec fn starget(es: Seq<Edge>, q: GcPtr) -> bool { exists|k: int| 0 <= k < es.len() && (#[trigger] es[k]).to == q && !es[k].weak }
 pub open spec fn edge_done(s: S, e: Edge) -> bool {
     if e.weak { s.objs[e.to].color != GcColor::White } else { is_marked(s.objs[e.to].color) }
 }
@@ -255,7 +256,7 @@ pub open spec fn marks_rel(pre: S, post: S, es: Seq<Edge>) -> bool {
     &&& forall|q: GcPtr| #[trigger] isobj(pre, q) ==> {
             let c0 = pre.objs[q].color; let c1 = post.objs[q].color;
             &&& rank(c0) <= rank(c1)
-            &&& (c0 != c1 ==> is_white(c0) && targets(es, q) && (c1 == GcColor::Black ==> !pre.objs[q].needs_trace))
+            &&& (c0 != c1 ==> is_white(c0) && targets(es, q) && (is_marked(c1) ==> starget(es, q)) && (c1 == GcColor::Black ==> !pre.objs[q].needs_trace))
             // queue bookkeeping: one new entry exactly for every object that became Gray
             &&& qcount(post, q) == qcount(pre, q) + (if c1 == GcColor::Gray && c0 != GcColor::Gray { 1nat } else { 0nat })
         }
